@@ -150,7 +150,7 @@ class ExecMixin:
                             ov = self.eval_operand(st, frame, o)
                             if isinstance(ov, VInt) and len(ov.lin.t) == 1 and ov.lin.c == 0:
                                 info = getattr(self, "elem_syms", {}).get(next(iter(ov.lin.t)))
-                                if info is not None:
+                                if info is not None and not (isinstance(info[2], tuple) and info[2] and info[2][0] == "vec"):
                                     st.emit(("xor", dloc[0], di, info[0], info[1], {"fn": frame.fn["name"], "bb": bb, "ln": stmt.get("ln")}, info[2]))
                 except Abort:
                     pass
@@ -279,6 +279,12 @@ class ExecMixin:
     def exec_assert(self, frame, st, bb, t):
         c = self.eval_operand(st, frame, t["cond"])
         m = t["msg"]
+        if m["kind"] == "Other" and t.get("exp") and (m.get("s", "").startswith("MisalignedPointerDereference") or
+                                                      m.get("s", "").startswith("NullPointerDereference")):
+            # debug-assertion pointer checks the compiler inserts inside std macro expansions (vec![..] writes through
+            # the freshly allocated Box): the allocator returns aligned, non-null memory (trusted base)
+            self.assumed_total["debug pointer check in macro expansion (fresh Box allocation)"] += 1
+            return [("goto", st, t["target"])]
         label = "assert:" + m["kind"] + (":" + m["op"] if "op" in m else "")
         kind = "bounds" if m["kind"] == "BoundsCheck" else "arith"
         if not isinstance(c, VBool):
